@@ -453,6 +453,36 @@ def numa_case(rng, name):
     return lines
 
 
+def reregister_case(rng, name, nbpus=8):
+    """a kind with a known forced efficiency is registered again: same cpuset or a superset,
+    with another known value, the value of another kind (duplicate => all unknown), or -1"""
+    lines = ["case %s %d" % (name, nbpus)]
+    bits = list(range(nbpus))
+    rng.shuffle(bits)
+    k = rng.randint(2, 3)
+    cuts = sorted(rng.sample(range(1, nbpus), k - 1))
+    parts = [sum(1 << b for b in bits[a:b]) for a, b in zip([0] + cuts, cuts + [nbpus])]
+    vals = rng.sample(range(0, 9), k)
+    for m, v in zip(parts, vals):
+        lines.append(reg_line(BS(m), v, 0, [("n", "%x" % m)] if rng.random() < 0.5 else None))
+    for _ in range(rng.randint(1, 3)):
+        j = rng.randrange(k)
+        m = parts[j]
+        if rng.random() < 0.5:
+            m |= parts[rng.randrange(k)]          # superset: covers a second kind too
+        if rng.random() < 0.2:
+            m |= 1 << (nbpus + rng.randrange(3))   # and PUs no kind has yet
+        v = rng.choice([-1, vals[(j + 1) % k], rng.randrange(10, 20), vals[j]])
+        lines.append(reg_line(BS(m), v, 0, None))
+        lines.append("getby %s 0" % BS(parts[j]).show())
+    if rng.random() < 0.3:
+        lines.append("env " + hexs("forced_efficiency"))
+        lines.append("rank")
+    if rng.random() < 0.3:
+        lines.append(rng.choice(["dup", "xml"]))
+    return lines
+
+
 def malformed_case(rng, name, nbpus=8):
     lines = ["case %s %d" % (name, nbpus)]
     lines.append(reg_line(BS(rng.getrandbits(nbpus) | 1), 1, 0, [("a", "1")]))
@@ -792,6 +822,18 @@ def spec_check(script, transcript, stats=None):
                     bad.append(("foreign-info", "%s: kind %d carries %r that no registration covering it provided" % (where, i, inf)))
             k_forced = lastf
             ks[i] = k + (k_forced,)
+        # the forced efficiency a kind holds is that of the last registration covering it
+        # (private field printed by the harness; Inv clause ko_forced)
+        if forced_reliable and d.priv:
+            pf = {}
+            for tok in d.priv.split()[1:]:
+                if ":forced=" in tok:
+                    a = tok.split(":")
+                    pf[int(a[0])] = int(a[1][7:])
+            for i, k in enumerate(ks):
+                if k[4] is not None and i in pf and pf[i] != k[4]:
+                    bad.append(("forced-stale", "%s: kind %d (%s) holds forced efficiency %d, the last registration covering it gave %d" % (
+                        where, i, k[0].show(), pf[i], k[4])))
         effs = [k[1] for k in ks]
         if op == "restrict" and changed and d.nr != prev.nr:
             bump("restrict_removed_kind")
@@ -810,6 +852,15 @@ def spec_check(script, transcript, stats=None):
         if not forced_reliable:
             prev = d
             continue
+        ranked_now0 = (op == "reg" and changed) or op in ("rank", "xml") or (op == "restrict" and changed and d.nr != prev.nr)
+        forced0 = [k[4] for k in ks]
+        usable = all(x is not None and x >= 0 for x in forced0) and len(set(forced0)) == len(forced0)
+        if ranked_now0 and len(ks) >= 2 and not usable and all(x is not None for x in forced0):
+            # forced efficiencies unusable (one unknown, or two equal): the forced_efficiency strategy must give up,
+            # and so must the default one when no kind carries core type / frequency infos to fall back on
+            rankable_infos = any(n in ("CoreType", "FrequencyMaxMHz", "FrequencyBaseMHz") for k in ks for n, _ in k[2])
+            if (env == "forced_efficiency" or (env in (None, "default", "bogus", "") and not rankable_infos)) and effs != [-1] * len(ks):
+                bad.append(("forced-unusable", "%s: forced efficiencies %r are not all known and distinct but efficiencies are %r" % (where, forced0, effs)))
         ranked_now = (op == "reg" and changed) or op in ("rank", "xml") or (op == "restrict" and changed and d.nr != prev.nr)
         if ranked_now and len(ks) >= 2 and env in (None, "default", "forced_efficiency", "bogus", "") \
                 and all(x is not None and x >= 0 for x in forced) and len(set(forced)) == len(forced):
